@@ -214,7 +214,8 @@ PROPS = {
         areas=[dict(area="vec", quick=1500, thorough=60000,
                     classes=["child-identity", "key-encoding", "error-kind", "wrong-shape-accepted", "wellformed-request-refused",
                              "remove-result", "collect-mismatch", "fnv-collision", "harness-panic"]),
-               dict(area="local", quick=600, thorough=20000, classes=["vector-handover", "harness-panic"], mask=[(only_prefix("n="), None)])],
+               dict(area="local", quick=600, thorough=20000, classes=["vector-handover", "harness-panic"], mask=[(only_prefix("n="), None)]),
+               dict(area="cvec", quick=500, thorough=20000, classes=["update-lost", "not-linearizable", "stuck", "harness-panic"])],
         rule="case = one vector (counter/int counter/gauge/int gauge/histogram; 0-3 declared names, 0-2 const labels) + 3-12 operations "
              "(with_label_values, map form in shuffled key order, remove, reset, update through old handles, collect); tuples are built from one string cut at "
              "different places, empty values, multi-byte/0x7f/NUL neighbours, the FNV collision pair, wrong cardinality, wrong names; "
